@@ -22,30 +22,41 @@ const (
 	clGoPkg
 	clStdlib
 	clUnknown
-	clTestMain // package main AND Stdlib (go test generated main)
+	clTestMain    // package main AND Stdlib (go test generated main)
+	clMainUnknown // package main whose file lies under no detected root
 	nClasses
 )
 
-var classNames = []string{"main", "gomod", "gopath", "gopkg", "stdlib", "unknown", "testmain"}
+var classNames = []string{"main", "gomod", "gopath", "gopkg", "stdlib", "unknown", "testmain", "main-unresolved"}
 
 func classCall(cl int, variant int) Call {
 	var c Call
 	switch cl {
+	// resolved classes carry the fields path guessing fills in: the relative and local
+	// path and the import path implied by them (for package main this replaces "main")
 	case clMain:
 		c = mkCall("main.run", "/m/cmd/x/main.go", 10, Args{})
 		c.Location = GoMod
+		c.RelSrcPath, c.LocalSrcPath, c.ImportPath = "cmd/x/main.go", "/m/cmd/x/main.go", "example.com/mod/cmd/x"
 	case clGoMod:
 		c = mkCall("example.com/mod/pkg.Do", "/m/pkg/do.go", 20, Args{})
 		c.Location = GoMod
+		c.RelSrcPath, c.LocalSrcPath, c.ImportPath = "pkg/do.go", "/m/pkg/do.go", "example.com/mod/pkg"
 	case clGOPATH:
 		c = mkCall("github.com/u/gp.Run", "/gp/src/github.com/u/gp/run.go", 30, Args{})
 		c.Location = GOPATH
+		c.RelSrcPath, c.LocalSrcPath, c.ImportPath = "github.com/u/gp/run.go", "/home/u/go/src/github.com/u/gp/run.go", "github.com/u/gp"
 	case clGoPkg:
 		c = mkCall("github.com/u/dep.Call", "/gp/pkg/mod/github.com/u/dep@v1.0.0/call.go", 40, Args{})
 		c.Location = GoPkg
+		c.RelSrcPath, c.LocalSrcPath, c.ImportPath = "github.com/u/dep@v1.0.0/call.go", "/home/u/go/pkg/mod/github.com/u/dep@v1.0.0/call.go", "github.com/u/dep@v1.0.0"
 	case clStdlib:
 		c = mkCall("net/http.(*Server).Serve", "/goroot/src/net/http/server.go", 50, Args{})
 		c.Location = Stdlib
+		c.RelSrcPath, c.LocalSrcPath, c.ImportPath = "net/http/server.go", "/usr/lib/go/src/net/http/server.go", "net/http"
+	case clMainUnknown:
+		c = mkCall("main.work", "/build/cmd/y/work.go", 80, Args{})
+		c.Location = LocationUnknown
 	case clUnknown:
 		c = mkCall("corp/x.Thing", "/build/x/thing.go", 60, Args{})
 		c.Location = LocationUnknown
@@ -92,6 +103,17 @@ func (o ordSig) signature() Signature {
 		loc := c.Location
 		s.Stack.Calls = append(s.Stack.Calls, c)
 		s.Stack.Calls[i].Location = loc
+	}
+	return s
+}
+
+// memberSignature is signature() for the m-th goroutine of a bucket: the first frame
+// carries a pointer argument that differs per member, so that members of one bucket are
+// similar but not equal and the bucket's signature is a merged one.
+func (o ordSig) memberSignature(m int) Signature {
+	s := o.signature()
+	if len(s.Stack.Calls) != 0 {
+		s.Stack.Calls[0].Args = Args{Values: []Arg{v(ptr1 + uint64(m)*0x40)}}
 	}
 	return s
 }
@@ -293,7 +315,7 @@ func TestVerifC13(t *testing.T) {
 			k := 0
 			for i, ui := range idx {
 				for m := 0; m < mult[i]; m++ {
-					g := &Goroutine{Signature: u[ui].signature(), ID: ids[k]}
+					g := &Goroutine{Signature: u[ui].memberSignature(m), ID: ids[k]}
 					owner[g.ID] = ui
 					s.Goroutines = append(s.Goroutines, g)
 					k++
@@ -343,6 +365,18 @@ func TestVerifC13(t *testing.T) {
 					}
 					if countMain(&bj.Signature) > countMain(&bi.Signature) {
 						return mk("fewer-main-first", fmt.Sprintf("bucket %d has fewer package-main frames than bucket %d but is shown first", i, j))
+					}
+					// the same judged on what the members are (a merged signature must not
+					// have lost what ranks it)
+					ri, rj := u[owner[bi.IDs[0]]].signature(), u[owner[bj.IDs[0]]].signature()
+					if res, _ := safeLess(&rj, &ri); res {
+						return mk("not-sorted-by-members", fmt.Sprintf("the members of bucket %d order strictly before the members of bucket %d under the comparator but the bucket is shown after it", j, i))
+					}
+					if allStdlibNoMain(&ri) && hasUserCode(&rj) {
+						return mk("stdlib-before-user-code:members", fmt.Sprintf("bucket %d (members all standard library) is shown before bucket %d whose members have main/module/GOPATH/module-cache code", i, j))
+					}
+					if countMain(&rj) > countMain(&ri) {
+						return mk("fewer-main-first:members", fmt.Sprintf("bucket %d has fewer package-main frames than bucket %d but is shown first", i, j))
 					}
 				}
 			}
